@@ -3,7 +3,7 @@ CONSTANTS
   Threads = {t1, t2, t3}
   Keys = {k1, k2}
   Locked = TRUE
-  OpSet = {"Set", "SetToTop", "Update", "Get", "Has", "Len", "Each", "Map"}
-  OpsPerThread = 1
+  OpSet = {"SetToTop", "Update", "Each"}
+  OpsPerThread = 2
 INVARIANTS MutualExclusion OrderIsDomain NoLostUpdate EachConsistent
 CHECK_DEADLOCK TRUE
